@@ -627,26 +627,35 @@ def ids_enum(tier, seed):
 
 # ============================================================================ cfg on query parameters (C16)
 
+def dp_preds(dp):
+    """the predicates decorating a parameter, in the order the attributes are written (12 / 21: stacked)"""
+    return {0: [], 12: [1, 2], 21: [2, 1]}.get(dp["pred"], [dp["pred"]])
+
+def dp_enabled(item, dp):
+    return all(item["asg"][q - 1] for q in dp_preds(dp))
+
+def cfgq_pred_order(item):
+    order = []
+    for dp in item["dparams"]:
+        for q in dp_preds(dp):
+            if q not in order:
+                order.append(q)
+    return order
+
 def cfgq_param_cfgs(item, realise=None):
     out = []
     for dp in item["dparams"]:
-        if dp["pred"] == 0:
-            out.append([])
-        elif realise == "const":
-            out.append(["all()" if item["asg"][dp["pred"] - 1] else "any()"])
+        if realise == "const":
+            out.append(["all()" if item["asg"][q - 1] else "any()" for q in dp_preds(dp)])
         else:
-            out.append([PRED[dp["pred"]]])
+            out.append([PRED[q] for q in dp_preds(dp)])
     return out
 
 def cfgq_bools(item):
-    order = []
-    for dp in item["dparams"]:
-        if dp["pred"] and dp["pred"] not in order:
-            order.append(dp["pred"])
-    return ", ".join("true" if item["asg"][p - 1] else "false" for p in order)
+    return ", ".join("true" if item["asg"][p - 1] else "false" for p in cfgq_pred_order(item))
 
 def cfgq_has_oneof_cfg(item):
-    return any(dp["pred"] != 0 and dp["p"][0] in ("oneof", "oneofmut") for dp in item["dparams"])
+    return any(dp_preds(dp) and dp["p"][0] in ("oneof", "oneofmut") for dp in item["dparams"])
 
 def cfgq_compare(item, mac, res):
     """Generator output on the decorated query vs the outcome of the reduced twin."""
@@ -661,7 +670,7 @@ def cfgq_compare(item, mac, res):
     blocks = res["blocks"]
     if mac.startswith("find"):
         blocks = blocks[0::2]
-    enabled = [dp["pred"] == 0 or item["asg"][dp["pred"] - 1] for dp in item["dparams"]]
+    enabled = [dp_enabled(item, dp) for dp in item["dparams"]]
     got = []
     for b in blocks:
         plist = [x for x in b[1].split(",") if ":" in x]
@@ -698,7 +707,7 @@ def cfgq_e2e_src(item, mac, realise, twin, guarded=False):
     names = []
     k = 0
     for i, dp in enumerate(item["dparams"]):
-        en = dp["pred"] == 0 or item["asg"][dp["pred"] - 1]
+        en = dp_enabled(item, dp)
         if twin:
             if not en:
                 continue
@@ -771,22 +780,20 @@ def cfgq_enum(tier, seed):
         parts = list(ex.map(lambda i: run_lab(lab, reqs[i * per:(i + 1) * per]) if reqs[i * per:(i + 1) * per] else [], range(chunks)))
     results = [r for p in parts for r in p]
     violations, known = [], []
-    stats = {"decorated": 0, "some_disabled": 0, "all_disabled": 0, "known_L1": 0, "chains": 0}
+    stats = {"decorated": 0, "some_disabled": 0, "all_disabled": 0, "known_L1": 0, "chains": 0,
+             "stacked": sum(1 for it in items if any(len(dp_preds(dp)) > 1 for dp in it["dparams"]))}
     for (ii, mac), res in zip(index, results):
         item = items[ii]
         if mac.startswith("chain:"):
             stats["chains"] += 1
-            order = []
-            for dp in item["dparams"]:
-                if dp["pred"] and dp["pred"] not in order:
-                    order.append(dp["pred"])
+            order = cfgq_pred_order(item)
             msg = ("chain generation failed: %s" % res.get("msg")) if res["res"] != "ok" else chain_check(res["chain"], order, mac[6:])
             if msg:
                 violations.append({"tags": ["C16"], "what": "cfg-probing macro chain of ecs_%s!: %s" % (mac[6:], msg), "at": ii,
                                    "event": {"decl": item["decl"], "dparams": item["dparams"], "generator": res}, "origin": {"engine": "cfgq-chain"}})
             continue
-        n_dis = sum(1 for dp in item["dparams"] if dp["pred"] and not item["asg"][dp["pred"] - 1])
-        if any(dp["pred"] for dp in item["dparams"]):
+        n_dis = sum(1 for dp in item["dparams"] if not dp_enabled(item, dp))
+        if any(dp_preds(dp) for dp in item["dparams"]):
             stats["decorated"] += 1
         if n_dis:
             stats["some_disabled"] += 1
@@ -805,7 +812,7 @@ def cfgq_enum(tier, seed):
                 violations.append(v)
     # ---- end to end: decorated program, realised both ways, and its reduced twin
     rnd = random.Random(seed)
-    cand = [it for it in items if it["outcome"] == "ok" and not cfgq_has_oneof_cfg(it) and any(dp["pred"] for dp in it["dparams"])
+    cand = [it for it in items if it["outcome"] == "ok" and not cfgq_has_oneof_cfg(it) and any(dp_preds(dp) for dp in it["dparams"])
             and conflict_free({"matched": it["matched"]})]
     # disabled params may name columns twice etc.; keep programs whose decorated form is also conflict free
     def deco_ok(it):
@@ -822,7 +829,7 @@ def cfgq_enum(tier, seed):
     # programs with a disabled component parameter whose column exists in a matched archetype
     def hidden_col(it):
         for dp in it["dparams"]:
-            if dp["pred"] and not it["asg"][dp["pred"] - 1] and dp["p"][0] in ("comp", "compmut"):
+            if not dp_enabled(it, dp) and dp["p"][0] in ("comp", "compmut"):
                 if any(dp["p"][1] in a["cols"] for a in it["decl"] if any(m["name"] == a["name"] for m in it["matched"])):
                     return True
         return False
